@@ -2,7 +2,9 @@ package config
 
 import (
 	"flag"
+	"fmt"
 	"go/ast"
+	"io"
 	"iter"
 	"os"
 	"strconv"
@@ -128,6 +130,20 @@ func FromEnv() *Config {
 	excludeChecks = parseEnvValue("GOGREEMENT_EXCLUDE_CHECKS", true, excludeChecks)
 
 	return New(scanTests, excludePaths, excludeChecks)
+}
+
+// WriteEnvFingerprint writes every environment variable the configuration is read from, set or not, to w.
+// A driver that caches results per tool identity (go vet) has to tell runs with different settings apart.
+func WriteEnvFingerprint(w io.Writer) {
+	for _, key := range []string{
+		"GOGREEMENT_ENV_ONLY",
+		"GOGREEMENT_SCAN_TESTS",
+		"GOGREEMENT_EXCLUDE_PATHS",
+		"GOGREEMENT_EXCLUDE_CHECKS",
+	} {
+		value, set := os.LookupEnv(key)
+		fmt.Fprintf(w, "%s=%t:%q\n", key, set, value)
+	}
 }
 
 // parseStringList parses a comma-separated string into a slice of strings
